@@ -78,7 +78,13 @@ def run(chk, tier):
     import orphan
     nor = orphan.run(chk, P, ["topology.c"])
     chk.floor("R-ORPHAN", "release sites x child lists", nor, 12)
-    chk.decided += ['parallel arrays of a distances structure are compacted together before its count is lowered',
+    chk.rule("R-MOVED", "an object whose contents a callee has moved away and zeroed (discovered: memset(param, 0, sizeof(*param)) on every path -- hwloc_replace_linked_object) is only released afterwards: "
+             "returning it, dereferencing it or handing it on is reported (may-dataflow on the argument, killed by re-assignment)")
+    import moved
+    nmv, movers_ = moved.run(chk, P, ["topology.c"])
+    chk.floor("R-MOVED", "calls of content-moving functions", nmv, 2)
+    chk.decided += ['hwloc_topology_insert_group_object() never returns the emptied shell of a Group whose contents were moved into an existing one',
+                    'parallel arrays of a distances structure are compacted together before its count is lowered',
                     'an object removed from the tree is freed only after each of its non-empty child lists was handed on',
                     "compaction of targets/initiators after a refresh copies the surviving entry down, never the dropped one over it",
                     "restrict: see C08", "allow/restrict leave the topology untouched on EINVAL (no write before any EINVAL exit)",
